@@ -93,17 +93,32 @@ class Config:
                 self.frames.append(self.frames[-1] + rng.normal(0, 0.15, size=(N, ndim)))
         self.h = h
         self.origin = origin
+        # per-frame cells: constant, or changing from frame to frame (constant-pressure run,
+        # sheared cell); positions follow the cell affinely
+        self.hs, self.origins = [h.copy() for _ in range(T)], [np.array(origin, dtype=float) for _ in range(T)]
+        if r.get("cells", "const") == "vary" and not self.exact:
+            for t in range(1, T):
+                ht = h * (1.0 + rng.uniform(-0.1, 0.1, size=ndim))[None, :]
+                if r["cell"] == "tri":
+                    ht[1, 0] += rng.uniform(-0.15, 0.15) * h[0, 0]
+                    if ndim == 3:
+                        ht[2, 0] += rng.uniform(-0.15, 0.15) * h[0, 0]
+                        ht[2, 1] += rng.uniform(-0.15, 0.15) * h[1, 1]
+                ot = origin + rng.uniform(-0.3, 0.3, size=ndim)
+                s = np.linalg.solve(h.T, (self.frames[t] - origin).T).T
+                self.frames[t] = s @ ht + ot
+                self.hs[t], self.origins[t] = ht, ot
         types = np.concatenate([np.arange(1, K + 1), rng.integers(1, K + 1, size=max(0, N - K))])[:N]
         self.types = rng.permutation(types).astype(int)
-        self.Lmin = float(np.min(np.abs(np.diag(h))))
-        self.tables = [self._table(p) for p in self.frames]
+        self.Lmin = float(min(np.min(np.abs(np.diag(x))) for x in self.hs))
+        self.tables = [self._table(p, self.hs[t]) for t, p in enumerate(self.frames)]
 
-    def _table(self, pos):
+    def _table(self, pos, h):
         N = self.N
         D = np.zeros((N, N))
         smax = 0.0
         for i in range(N):
-            R, s = min_image(pos - pos[i], self.h, self.ppp)
+            R, s = min_image(pos - pos[i], h, self.ppp)
             D[i] = np.sqrt((R * R).sum(axis=1))
             per = np.abs(s[:, self.ppp == 1])
             if per.size:
@@ -171,11 +186,11 @@ class Config:
     def snapshots(self):
         from PyMatterSim.reader.reader_utils import SingleSnapshot, Snapshots
         snaps = []
-        L = np.diag(self.h).copy()
         for t, pos in enumerate(self.frames):
-            bounds = np.column_stack((self.origin, self.origin + L))
+            L = np.diag(self.hs[t]).copy()
+            bounds = np.column_stack((self.origins[t], self.origins[t] + L))
             snaps.append(SingleSnapshot(
                 timestep=1000 * t, nparticle=self.N, particle_type=self.types.copy(),
                 positions=pos.copy(), boxlength=L.copy(), boxbounds=bounds,
-                realbounds=None, hmatrix=self.h.copy()))
+                realbounds=None, hmatrix=self.hs[t].copy()))
         return Snapshots(nsnapshots=self.T, snapshots=snaps)
